@@ -39,36 +39,36 @@ type GhostDecl struct {
 }
 
 type FuncSpec struct {
-	Key       string // e.g. "Ranged.Expand", "Join", "slowGenBankOriginParser$1"
-	Pkg       string
-	Recv      string // spec name of receiver
-	RecvType  string
-	Params    []string // spec names, positional
-	Results   []string
-	Props     []string
-	Requires  []*Clause
-	Ensures   []*Clause
-	Loops     map[int]*LoopSpec
-	Assigns   string // "" (unspecified), "nothing", or expression list
-	Trusted   bool   // contract assumed, body not verified
-	TrustWhy  string
-	PanicsIf  []*Clause
-	Decreases *Clause
-	Ghosts    []string
-	GhostFns  []*GhostDecl
-	GhostFinal []*Clause
-	Uses      []*Clause
-	Reveal    []string
-	Defines   []*Clause // definitional axioms of ghost functions (assumed on both sides)
-	CallPre   []*Clause // obligations at every call of a named external method inside this function: Label = method name, Props = argument names
-	Iface     string // for interface method contracts: interface name
-	File      string
-	Line      int
-	NoInline  bool
-	Pure      bool
-	Allocates bool
-	IsLemma   bool
-	External  bool
+	Key         string // e.g. "Ranged.Expand", "Join", "slowGenBankOriginParser$1"
+	Pkg         string
+	Recv        string // spec name of receiver
+	RecvType    string
+	Params      []string // spec names, positional
+	Results     []string
+	Props       []string
+	Requires    []*Clause
+	Ensures     []*Clause
+	Loops       map[int]*LoopSpec
+	Assigns     string // "" (unspecified), "nothing", or expression list
+	Trusted     bool   // contract assumed, body not verified
+	TrustWhy    string
+	PanicsIf    []*Clause
+	Decreases   *Clause
+	Ghosts      []string
+	GhostFns    []*GhostDecl
+	GhostFinal  []*Clause
+	Uses        []*Clause
+	Reveal      []string
+	Defines     []*Clause // definitional axioms of ghost functions (assumed on both sides)
+	CallPre     []*Clause // obligations at every call of a named external method inside this function: Label = method name, Props = argument names
+	Iface       string    // for interface method contracts: interface name
+	File        string
+	Line        int
+	NoInline    bool
+	Pure        bool
+	Allocates   bool
+	IsLemma     bool
+	External    bool
 	LemmaParams string
 }
 
